@@ -13,6 +13,13 @@ sed -i 's#path = "/repo"#path = "/tmp/exp/repo"#' /tmp/exp/harness/Cargo.toml
 cp /verif/known_findings.json /tmp/exp/root/; rm -rf /tmp/exp/root/regress /tmp/exp/root/replays; cp -r /verif/regress /tmp/exp/root/
 if [ "$PATCH" != "none" ]; then git -C /tmp/exp/repo apply "$PATCH" || { echo "patch does not apply"; exit 2; }; fi
 (cd /tmp/exp/harness && CARGO_NET_OFFLINE=true cargo build --release --offline >/tmp/exp/build.log 2>&1) || { echo "build failed"; tail -5 /tmp/exp/build.log; git -C /tmp/exp/repo checkout -q -- .; exit 2; }
+case " $* " in *" C18 "*)
+  # C18 needs the AddressSanitizer probe, built against the scratch worktree as well
+  mkdir -p /tmp/exp/root/asan; rsync -a --delete --exclude target --exclude target-miri /verif/asan/ /tmp/exp/root/asan/
+  sed -i 's#path = "/repo"#path = "/tmp/exp/repo"#' /tmp/exp/root/asan/Cargo.toml
+  ln -sfn /tmp/exp/harness /tmp/exp/root/harness
+  (cd /tmp/exp/root/asan && RUSTFLAGS="-Zsanitizer=address" CARGO_NET_OFFLINE=true cargo +nightly build --release --offline --target x86_64-unknown-linux-gnu >/tmp/exp/build_asan.log 2>&1) || { echo "asan build failed"; tail -3 /tmp/exp/build_asan.log; }
+  ;; esac
 for id in "$@"; do
   out=$(cd /tmp/exp/root && VERIF_ROOT=/tmp/exp/root RUST_LOG=off timeout 3000 /tmp/exp/harness/target/release/pmh-verif run "$id" "$TIER" 2>/dev/null | grep -E "^(VIOLATION|OK)|reason" | head -2 | tr '\n' ' ' | cut -c1-330)
   echo "  [$id $TIER exp] $out"
